@@ -1145,8 +1145,12 @@ func (s *Stage) putFileAway(file *finalFile) (targetPath string, err error) {
 	fileutil.VerifPoint("stage.put.final", file.path)
 
 	// Clean up the companion (no need to capture an error since it wouldn't
-	// be a deal-breaker anyway)
-	os.Remove(file.path + compExt)
+	// be a deal-breaker anyway) -- unless it has meanwhile come to describe
+	// another version of the file that is being received: its parts were
+	// acknowledged and will not be sent again
+	if cmp, cmpErr := readLocalCompanion(file.path, file.name); cmpErr != nil || cmp == nil || cmp.Hash == file.hash {
+		os.Remove(file.path + compExt)
+	}
 	fileutil.VerifPoint("stage.put.cmpgone", file.path)
 	return
 }
